@@ -698,11 +698,17 @@ func parseShortTermRPS(r *bits.EBSPReader, idx, numSTRefPicSets byte, sps *SPS) 
 	if interRPSPredFlag {
 		deltaIdx := byte(1)
 		if idx == numSTRefPicSets { // Slice header
-			deltaIdx = byte(r.ReadExpGolomb() + 1)
 			// parse delta_idx_minus1
+			deltaIdxMinus1 := r.ReadExpGolomb()
+			if deltaIdxMinus1 >= uint(idx) { // Must not be truncated by the conversion to byte
+				r.SetError(fmt.Errorf("delta_idx_minus1 %d >= idx %d in parseShortTermRPS", deltaIdxMinus1, idx))
+				return stps
+			}
+			deltaIdx = byte(deltaIdxMinus1 + 1)
 		}
-		if deltaIdx > idx {
+		if deltaIdx > idx || int(idx-deltaIdx) >= len(sps.ShortTermRefPicSets) {
 			r.SetError(fmt.Errorf("deltaIdx > idx in parseShortTermRPS"))
+			return stps
 		}
 		/* deltaRpsSign */ _ = r.Read(1)
 		/* absDeltaRpsMinus1*/ _ = r.ReadExpGolomb()
